@@ -141,4 +141,87 @@ Proof.
     rewrite app_length, Nat.add_assoc. reflexivity.
 Qed.
 
+
+(** * a cut after the header section is visible *)
+Definition clean_and_silent (u : uresult) : Prop := exists r' s', u = URec r' None [] s'.
+
+Lemma trailer_incomplete o z tl fnd : (length z < 4)%nat -> policy_gt_ignore (o_spec o) = true ->
+  match trailer o (mkst z tl) fnd with
+  | Ok _ fnd' => exists e, fnd' = fnd ++ [e]
+  | Err _ _ => True
+  end.
+Proof.
+  intros Hz Hgt. unfold trailer, peek. cbn [sdata stail].
+  rewrite firstn_all2 by lia.
+  assert (Hne : bytes_eqb z CRLFCRLF = false).
+  { destruct (bytes_eqb z CRLFCRLF) eqn:E; [|reflexivity].
+    apply BytesProofs.bytes_eqb_eq in E. subst. cbn in Hz. lia. }
+  rewrite Hne. destruct (o_spec o); [discriminate| |exact I]. cbn [site].
+  eexists; reflexivity.
+Qed.
+
+Theorem cut_after_header_is_visible o r bd pd x y :
+  valid_record o r bd pd -> policy_gt_ignore (o_spec o) = true ->
+  raw_bytes (r_block r) ++ CRLFCRLF = x ++ y -> y <> [] ->
+  ~ clean_and_silent
+      (parse_record o (mkst (s_WARC ++ r_vtxt r ++ CRLF ++ serialize (r_fields r) ++ x) TEOF) []).
+Proof.
+  intros [Hver Hwf Hne Hhdr Hlen Hblk Hdig] Hgt Hxy Hy.
+  destruct r as [vt vid rt hs blk]. cbn [r_vtxt r_vid r_type r_fields r_block] in *.
+  assert (Hs1 : parse_fields tbl uni_lower mime_dec (o_syntax o) (mkst (serialize hs ++ x) TEOF) []
+               = Ok (hs, mkst x TEOF) []).
+  { apply (parse_serialize tbl uni_lower mime_dec); assumption. }
+  assert (Hv : vt = v10 \/ vt = v11) by (destruct Hver as [[? _]|[? _]]; auto).
+  assert (Hvid : (if bytes_eqb vt [49;46;48] then 1 else if bytes_eqb vt [49;46;49] then 2 else 0) = vid).
+  { destruct Hver as [[-> ->]|[-> ->]]; reflexivity. }
+  assert (Hvid0 : (vid =? 0) = false) by (destruct Hver as [[_ ->]|[_ ->]]; reflexivity).
+  unfold Record.parse_record. cbv zeta.
+  rewrite (version_line vt _ TEOF Hv).
+  destruct (version_checks vt Hv) as [Hb Ht]. rewrite Hb, Ht, Hvid, Hvid0.
+  rewrite Hs1, Hhdr. cbn [sdata stail]. rewrite Hlen.
+  set (raw := raw_bytes blk) in *.
+  assert (Hlenxy : (length raw + 4 = length x + length y)%nat).
+  { apply (f_equal (@length byte)) in Hxy. rewrite !app_length in Hxy. exact Hxy. }
+  assert (Hylen : (0 < length y)%nat) by (destruct y; [contradiction Hy; reflexivity|cbn; lia]).
+  intros (r' & s' & Hclean).
+  destruct (Nat.lt_ge_cases (length x) (length raw)) as [Hshort|Hlong].
+  - (* the cut lies inside the block: the stream is exhausted before the marker *)
+    assert (Hc1 : ((Z.of_nat (length raw) <? 0)%Z || (Z.of_nat (length x) <=? Z.of_nat (length raw))%Z) = true).
+    { apply Bool.orb_true_iff. right. apply Z.leb_le. lia. }
+    rewrite Hc1 in Hclean. rewrite skipn_all in Hclean.
+    destruct (parse_block o rt hs x []) as [[[[hs2 b2] bd2] pd2] fnd5|e5 fnd5]; [|discriminate].
+    destruct (validate_digest o rt hs2 b2 bd2 pd2 _ fnd5) as [hs3 fnd6|e6 fnd6]; [|discriminate].
+    pose proof (trailer_incomplete o [] TEOF fnd6 ltac:(cbn; lia) Hgt) as Ht6.
+    destruct (trailer o (mkst [] TEOF) fnd6) as [s4 fnd7|e7 fnd7].
+    + inversion Hclean; subst. destruct Ht6 as [e Ht6]. symmetry in Ht6. apply app_eq_nil in Ht6 as [_ Ht6]. discriminate.
+    + discriminate.
+  - (* the block is complete: the cut lies inside the end-of-record marker *)
+    assert (Hx : exists z, x = raw ++ z /\ (length z < 4)%nat).
+    { exists (skipn (length raw) x). split.
+      - rewrite <- (firstn_skipn (length raw) x) at 1. f_equal.
+        assert (E : firstn (length raw) (x ++ y) = raw).
+        { rewrite <- Hxy. rewrite firstn_app, firstn_all, Nat.sub_diag, firstn_O, app_nil_r. reflexivity. }
+        rewrite firstn_app in E. replace (length raw - length x)%nat with 0%nat in E by lia.
+        rewrite firstn_O, app_nil_r in E. exact E.
+      - rewrite skipn_length. lia. }
+    destruct Hx as (z & -> & Hz).
+    assert (Hc1 : ((Z.of_nat (length raw) <? 0)%Z || (Z.of_nat (length (raw ++ z)) <=? Z.of_nat (length raw))%Z)
+                  = (length z =? 0)%nat).
+    { rewrite app_length. destruct z; cbn [length].
+      - rewrite Nat.add_0_r. apply Bool.orb_true_iff. right. apply Z.leb_le. lia.
+      - apply Bool.orb_false_iff. split; [apply Z.ltb_ge; lia|apply Z.leb_gt; lia]. }
+    rewrite Hc1 in Hclean.
+    assert (Hcontent : (if (length z =? 0)%nat then raw ++ z else firstn (Z.to_nat (Z.of_nat (length raw))) (raw ++ z)) = raw).
+    { destruct z; cbn [length Nat.eqb]; [apply app_nil_r|].
+      rewrite Nat2Z.id, firstn_app, firstn_all, Nat.sub_diag, firstn_O, app_nil_r. reflexivity. }
+    match type of Hclean with context [Record.parse_block _ _ _ _ _ _ o rt hs ?c []] =>
+      replace c with raw in Hclean by (symmetry; exact Hcontent) end.
+    rewrite skipn_app, skipn_all, Nat.sub_diag in Hclean. cbn [skipn app] in Hclean.
+    rewrite Hblk in Hclean. unfold cached_kind in Hdig. rewrite Hdig in Hclean.
+    pose proof (trailer_incomplete o z TEOF [] Hz Hgt) as Ht6.
+    destruct (trailer o (mkst z TEOF) []) as [s4 fnd7|e7 fnd7].
+    + inversion Hclean; subst. destruct Ht6 as [e Ht6]. symmetry in Ht6. apply app_eq_nil in Ht6 as [_ Ht6]. discriminate.
+    + discriminate.
+Qed.
+
 End RoundTrip.
